@@ -222,24 +222,38 @@ class C10(core.Property):
         "queue capacity 'inf' = FIFOQueue's own default float('inf') (the constructors take no None); the model runs it "
         "with a capacity the run cannot reach (entity_unbounded_never_drops)",
     ]
-    partial_theorems = {
-        "HappyModel.C10.adaptive_credit_bound": "the property's adaptive clause (bucket bound of the CURRENT rate, epoch by epoch, "
-        "all feedback sequences, a burst after a decrease judged against the decreased capacity) is proved in full: "
-        "adaptive_epoch_bound, adaptive_bucket_within_rate, adaptive_burst_after_decrease.  What stays partial is only the "
-        "cross-epoch form: it is stated with the credit the code actually grants "
-        "(AD.credit = sum over try_acquire / time_until_available calls of rate-at-the-call x time-since-the-previous-call): "
-        "admissions*one + tokens_left <= tokens_at_start + credit, from any state, for any operation list; between two rate "
-        "changes it is the bucket bound of the current rate (adaptive_current_rate_bound) and it implies the pmax bound "
-        "(adaptive_credit_le_pmax). The naive form 'capacity + integral of the rate in force at each instant' is NOT a theorem: "
-        "_refill applies the rate in force at the call to the whole time since the previous call, so a record_success just before "
-        "an acquire is credited retroactively (adaptive_naive_integral_bound_false: decided witness, 6 admissions = 240 units "
-        "against capacity(pmax) 80 + integral 20)",
-        "HappyModel.C10.tua_positive_blocks_run": "adaptive policy: the returned wait is honoured up to the next "
-        "record_success / record_failure only (hypothesis NoFeedback; blocksOK's noEarly stops at the feedback record) — a rate "
-        "increase legitimately admits earlier (example in Props.lean); the other four policies carry no such restriction",
-    }
-    hypotheses = ["Mono: operation times never decrease", "0 < p (rate)", "one ≤ cap (capacity at least one token)",
-                  "1 ≤ N", "0 < W", "distinct request ids (entity_exactly_once)"]
+    # Closed in round 5: the cross-epoch adaptive bound is `adaptive_cross_epoch_bound` (integral form over the
+    # run's epochs; `adaptive_credit_bound` is its engine), the adaptive wait promise without `NoFeedback` is
+    # `adaptive_wait_honoured_until_raise` / `adaptive_blocks_spec_through_feedback` (true form: unless the rate is
+    # raised first; `adaptive_wait_not_binding_after_raise` is the decided counter-example for the raise), and the
+    # drain clause is `drain_never_stalls_run` (explicit bound: 2 positive waits, fixed window 1).
+    partial_theorems = {}
+    hypotheses = [
+        "Mono: operation times never decrease — every run-level theorem; guaranteed by the engine (C01), and the "
+        "policies themselves ignore a clock that goes back (elapsed <= 0 returns early)",
+        "0 < p (refill / leak rate) — only the time_until_available clauses (tua_positive_blocks*, tua_reaches_admission, "
+        "drain_never_stalls_run); the admission bounds (token_bucket_bound, leaky_spacing*) hold without it. "
+        "AdaptivePolicy enforces it (min_rate > 0 raises ValueError); TokenBucketPolicy / LeakyBucketPolicy do NOT validate "
+        "refill_rate / leak_rate: with rate 0 (or negative) the wait is infinite / meaningless and a drain cannot finish — assumed",
+        "one <= cap (the bucket can hold one token; adaptive: min_rate * window_size >= 1) — only tua_reaches_admission / "
+        "drain_never_stalls_run: with a smaller bucket no request is ever admitted, yet time_until_available keeps "
+        "returning finite waits. No constructor validates it (TokenBucketPolicy(capacity=0.5) is accepted) — assumed, and "
+        "the generators respect it",
+        "1 <= N (max_requests / requests_per_window) — tua_zero_admits, tua_reaches_admission, drain_never_stalls_run for "
+        "the window policies; the bounds hold for N = 0 too. FixedWindowPolicy enforces it; SlidingWindowPolicy does not "
+        "(with max_requests=0 time_until_available raises IndexError on the empty log) — assumed",
+        "0 < W (window length in ns) — fixed_window_bounds and the fixed-window time_until_available clauses (W divides); "
+        "FixedWindowPolicy enforces window_size > 0 and clamps the ns length to >= 1; the sliding-window theorems need no "
+        "such hypothesis",
+        "distinct request ids — only entity_exactly_once_spec / drl_exactly_once_spec (the executable no-duplicates "
+        "predicate); entity_exactly_once, entity_fifo and drl_exactly_once are stated as multiset / subsequence facts and "
+        "hold with repeated ids",
+        "adaptive state conditions (rate in [min, max], tokens <= rate * window) are not hypotheses on the input: both hold "
+        "initially and after every operation list (adaptive_rate_in_range, adaptive_bucket_within_rate)",
+        "RefusalWaits P (a refusal is answered with a positive wait) in entity_drain_never_stalls is discharged for all "
+        "policies: token / leaky / adaptive bucket and the Inductor's gate (refusal_waits_policies), sliding window with "
+        "N >= 1 and fixed window with W > 0 (refusal_waits_window_policies)",
+    ]
 
     def __init__(self):
         self._unjudged = 0
@@ -1010,6 +1024,12 @@ THEOREMS = [
     "HappyModel.C10.drl_aligned_window_current_false",
     "HappyModel.C10.entity_capacity_respected",
     "HappyModel.C10.entity_unbounded_never_drops",
+    "HappyModel.C10.adaptive_cross_epoch_bound",
+    "HappyModel.C10.adaptive_wait_honoured_until_raise",
+    "HappyModel.C10.adaptive_blocks_spec_through_feedback",
+    "HappyModel.C10.adaptive_wait_not_binding_after_raise",
+    "HappyModel.C10.drain_never_stalls_run",
+    "HappyModel.C10.refusal_waits_window_policies",
 ]
 C10.theorems = THEOREMS
 PROPERTY = C10()
